@@ -116,18 +116,21 @@ def _work(job):
         if m.file_name != path or not isinstance(m.line_number, int):
             res["fails"].append(["registry:foreign-line", f"line id {lid} registered as {m.file_name}:{m.line_number}", None])
     reg_lines = {ln for (_f, ln) in registered.values() if isinstance(ln, int)}
-    for k, s in enumerate(specs):
-        truth = I.monitored_call(plain, path, s, ("LINE",))
-        obs, trace = I.traced_call(sp, code, path, s)
-        if obs["exc"] != truth["exc"]:
-            res["fails"].append(["behaviour-differs", f"plain {truth['exc']} instrumented {obs['exc']}", k])
+    seq = I.sequence_of(specs)
+    truths = I.monitored_sequence(plain, path, seq, ("LINE",))
+    runs = I.traced_sequence(sp, code, path, seq)
+    for k, (truth, (exc, trace)) in enumerate(zip(truths, runs, strict=True)):
+        kk = k if k < len(specs) else None
+        if exc != truth["exc"]:
+            res["fails"].append(["behaviour-differs", f"execution {k} of the sequence: plain {truth['exc']} instrumented {exc}", kk])
             continue
         reported = set(sp.lineids_to_linenos(trace.covered_line_ids))
         executed = set(truth["lines"]) & reg_lines
         if reported != executed:
             extra, missing = sorted(reported - executed, key=str), sorted(executed - reported)
             kind = "reported-not-executed" if extra else "executed-not-reported"
-            res["fails"].append([f"lines:{kind}", f"reported-but-not-executed {extra}, executed-but-not-reported {missing}", k])
+            res["fails"].append([f"lines:{kind}", f"execution {k} of {len(seq)} on one tracer (fresh trace before each): "
+                                 f"reported-but-not-executed {extra}, executed-but-not-reported {missing}", kk])
         res["stats"]["runs"] = res["stats"].get("runs", 0) + 1
         res["stats"]["lines"] = res["stats"].get("lines", 0) + len(executed)
     return res
@@ -210,7 +213,7 @@ def run(ctx: vlib.Ctx):
                 continue
             seen.add(sig)
             src, specs = progs[r["n"]][0], r.get("specs", progs[r["n"]][1])
-            ctx.fail(sig, msg, {"program": src, "input": specs[k] if k is not None and k < len(specs) else None})
+            ctx.fail(sig, msg, {"program": src, "input": specs[k] if k is not None and k < len(specs) else None, "inputs": specs})
     ctx.sample({"program": progs[-1][0][len(G.PRELUDE):][:500], "case": cases[-1][:400] if cases else None})
     ctx.leg("S", failures=n_or, programs=len(progs))
     bad = ctx.run_cases("C02_blocks", "From Verif Require Import Models.C02.", "C02.case", "C02.check_case", cases, shard=300)
@@ -234,7 +237,7 @@ def replay(ctx, path):
     I.setup()
     d = json.loads(open(path).read())["replay"]
     scratch = ctx.mkscratch()
-    r = _isolated_work((0, d["program"], str(scratch / "replay.py"), [d["input"]] if d.get("input") else []))
+    r = _isolated_work((0, d["program"], str(scratch / "replay.py"), d.get("inputs") or ([d["input"]] if d.get("input") else [])))
     print(d["program"])
     print("input:", d.get("input"))
     print("failures:", r["fails"] or "none")
